@@ -1,6 +1,6 @@
 """Configuration of ./check C15 (see cfg/README)."""
 
-PROP = {'drive': ['Layout'], 'modules': ['SfntV.Props.C15'],
+PROP = {'drive': ['Layout', 'Shape'], 'harness_files': ['area_layout.go', 'area_shape.go'], 'modules': ['SfntV.Props.C15'],
  'required_theorems': ['C15_findlookups',
                        'C15_findlookups_total',
                        'C15_findlookups_maporder',
@@ -14,14 +14,20 @@ PROP = {'drive': ['Layout'], 'modules': ['SfntV.Props.C15'],
                        'C15_kern',
                        'C15_ligatures',
                        'C15_trivial',
-                       'C15_trivial_oob'],
+                       'C15_trivial_oob',
+                       'C15_pipeline',
+                       'C15_pipeline_widths',
+                       'C15_trivial_engine',
+                       'C15_pipeline_single_glyph',
+                       'C15_pipeline_empty'],
  'areas': [('layout', 1200, 40000)],
  'rule': 'distinct case lines; non-trivial = FindLookups with >= 2 language systems and >= 2 features, kern '
          'tables with >= 2 subtables, cmaps with >= 4 of the 8 ligature-relevant characters, texts of >= 2 '
-         'characters',
- 'partial': ['the GSUB/GPOS application engine is abstract in C15_trivial (hypothesis: the two Context.Apply '
-             'functions return the sequence unchanged) and is instantiated only for the two synthesised tables '
-             '(applyLig, kernAdjust); fonts with real GSUB/GPOS/GDEF tables go through the engine of C07/C06',
+         'characters; pipeline cases with at least one character',
+ 'partial': ['C15_pipeline states Layout = GPOS-apply o assign-widths o GSUB-apply o cmap-map over the engine model '
+             'SfntV.Shape.apply (C07); what the engine does with a given lookup list is C06/C07, not restated '
+             'here; C15_trivial keeps the abstract-applier form, C15_trivial_engine is the corollary for '
+             'contexts without selected lookups',
              'the composition sfnt.Read -> NewLayouter -> Layout for files without GSUB/GPOS/GDEF (runText in '
              'Drive/Layout.lean: synthesis of liga/kern tables, defaulting of switches, FindLookups on the '
              'synthesised script lists, widths, application) is tied by the verdict stream layout.text on '
